@@ -507,8 +507,44 @@ func ruleRegionsInfoDiscipline(c *Ctx) {
 	subStat := &calledEv{name: "updateSubTreeStat(origin, region)", match: instrCallMatcher(F(P.Method("server/core", "RegionsInfo", "updateSubTreeStat")))}
 	subInsert := &calledEv{name: "sub-tree rebuild (the voters are enumerated)", match: instrCallMatcher(F(P.Method("server/core", "RegionInfo", "GetVoters")))}
 	c.need(rule, set, "return", func(x ssa.Instruction) bool { _, ok := x.(*ssa.Return); return ok },
-		[]Ev{treeUpdate, treeStat, subStat, subInsert}, func(h []bool) bool { return (h[0] || h[1]) && (h[2] || h[3]) },
-		"every call leaves the main tree rebuilt or its size statistics refreshed, and the sub-trees rebuilt or their statistics refreshed")
+		[]Ev{treeUpdate, treeStat, subStat, subInsert, &calledEv{name: "the region was taken in (item re-pointed or added)", match: func(x ssa.Instruction) bool {
+			return isStoreToField(x, itemRegion) || isCallTo(x, F(P.Method("server/core", "regionMap", "AddNew")))
+		}}}, func(h []bool) bool { return !h[4] || ((h[0] || h[1]) && (h[2] || h[3])) },
+		"every call that takes the region in leaves the main tree rebuilt or its size statistics refreshed, and the sub-trees rebuilt or their statistics refreshed")
+	// whether the sub-trees are rebuilt is decided, for an unchanged range, by shouldRemoveFromSubTree: the flag tested
+	// before removeRegionFromSubTree can be the answer of that comparison
+	shF := F(P.Method("server/core", "RegionsInfo", "shouldRemoveFromSubTree"))
+	decided := false
+	for _, ci := range callsIn(set, false, rmSub) {
+		for _, cond := range controllingConds(ci.Block(), 2) {
+			for _, alt := range valueAlternatives(cond, 4) {
+				if valueIsCallTo(alt, shF) {
+					decided = true
+				}
+			}
+		}
+	}
+	c.Check(decided, rule, "rebuild decision in "+fnName(set), "with an unchanged range the sub-trees are rebuilt when shouldRemoveFromSubTree says the peers changed", P.pos(set.Pos()), "the test before removeRegionFromSubTree never takes the answer of shouldRemoveFromSubTree")
+	// a sub-tree created for a store that had none is filed in its index before it is filled
+	newTree := F(P.Func("server/core", "newRegionTree"))
+	nNew := 0
+	for _, b := range set.Blocks {
+		for i, ins := range b.Instrs {
+			cl, ok := ins.(*ssa.Call)
+			if !ok || !newTree.Match(cl.Common()) {
+				continue
+			}
+			nNew++
+			okFiled, _ := followsOnAllPaths(b, i+1, b, func(x ssa.Instruction) bool {
+				mu, isMU := x.(*ssa.MapUpdate)
+				return isMU && mu.Value == ssa.Value(cl)
+			}, nil)
+			c.Check(okFiled, rule, fmt.Sprintf("new sub-tree #%d in %s", nNew, fnName(set)), "a sub-tree created for a store is stored in the per-store index it was created for", P.instrPos(cl), "the new tree is filled but never reachable from the index")
+		}
+	}
+	if nNew < 4 {
+		c.Undec(rule, "sub-trees created in "+fnName(set), "4 (leaders, followers, learners, pending peers)", "", fmt.Sprint(nNew))
+	}
 	// differential update is exhaustive
 	sh := P.Method("server/core", "RegionsInfo", "shouldRemoveFromSubTree")
 	peersEq := F(P.Func("server/core", "SortedPeersEqual"))
